@@ -546,8 +546,7 @@ func spec_walk(l *LALR1, q int, r int, k int) int { panic("spec") }
 //@ props C18
 //@ results g
 //@ requires lalr != nil && lalr.G != nil && lalr.G.LR0 != nil && len(tab) == len(lalr.G.LR0.LR0Closure) && len(tab) >= 1
-//@ requires forall s int :: 0 <= s && s < len(lalr.G.LR0.LR0Closure) ==> lalr.G.LR0.LR0Closure[s] != nil && lalr.G.LR0.LR0Closure[s].Index == s &&
-//@     (forall i int :: 0 <= i && i < len(lalr.G.LR0.LR0Closure[s].Items) ==> lalr.G.LR0.LR0Closure[s].Items[i] != nil)
+//@ requires grammar.wfRules(lalr.G) && (forall s int :: 0 <= s && s < len(lalr.G.LR0.LR0Closure) ==> lalr.G.LR0.LR0Closure[s] != nil && lalr.G.LR0.LR0Closure[s].Index == s && grammar.okItems(lalr.G, lalr.G.LR0.LR0Closure[s]))
 //@ requires forall s int :: 0 <= s && s < len(tab) ==> len(tab[s]) == len(lalr.G.Symbols)
 //@ requires forall a int :: 0 <= a && a < len(lalr.G.Symbols) ==> lalr.G.Symbols[a] != nil
 // nodes: state s is the s-th node added, under the name state_<s>
@@ -589,7 +588,9 @@ func spec_walk(l *LALR1, q int, r int, k int) int { panic("spec") }
 // reduce transition and the names of ALL symbols of its set, in order - so no reduction and no lookahead of the
 // tables is missing from the listing. ShowDrSet / ShowReadSet likewise for the DR and Read sets.
 //@ ghostvar tlen int
+
 func spec_transText(l *LALR1, tr int) string         { panic("spec") }
+func spec_ttPre(l *LALR1, tr int, n int) string      { panic("spec") }
 func spec_names(l *LALR1, set []int, n int) string   { panic("spec") }
 func spec_namesSp(l *LALR1, set []int, n int) string { panic("spec") }
 
@@ -597,18 +598,27 @@ func spec_namesSp(l *LALR1, set []int, n int) string { panic("spec") }
 //@ axiom NAMESS: forall l *LALR1, set []int, n int :: 0 <= n && n < len(set) ==> spec_names(l, set, n+1) == spec_names(l, set, n) + " " + l.G.Symbols[set[n]].Name
 //@ axiom NAMESP: forall l *LALR1, set []int, n int :: 0 <= n && n < len(set) ==> spec_namesSp(l, set, n+1) == spec_namesSp(l, set, n) + (l.G.Symbols[set[n]].Name + " ")
 
+// the text of a transition: "<state>:" then the symbol name (shift / goto), or "lhs-->" and the right-hand-side names (reduce)
+//@ axiom TTSHIFT: forall l *LALR1, tr int :: l.trans[tr].sym_or_rule&CheckMask == 0 ==> spec_transText(l, tr) == fmt.Sprintf("%d:", l.trans[tr].q) + l.G.Symbols[int(l.trans[tr].sym_or_rule)].Name
+//@ axiom TTRED: forall l *LALR1, tr int :: l.trans[tr].sym_or_rule&CheckMask != 0 ==> spec_transText(l, tr) == spec_ttPre(l, tr, len(l.G.ProductoinRules[int(l.trans[tr].sym_or_rule&Mask)].RighPart))
+//@ axiom TTP0: forall l *LALR1, tr int :: spec_ttPre(l, tr, 0) == fmt.Sprintf("%d:", l.trans[tr].q) + fmt.Sprintf("%s-->", l.G.ProductoinRules[int(l.trans[tr].sym_or_rule&Mask)].LeftPart.Name)
+//@ axiom TTPS: forall l *LALR1, tr, n int :: 0 <= n && n < len(l.G.ProductoinRules[int(l.trans[tr].sym_or_rule&Mask)].RighPart) ==>
+//@     spec_ttPre(l, tr, n+1) == spec_ttPre(l, tr, n) + fmt.Sprintf(" %s ", l.G.ProductoinRules[int(l.trans[tr].sym_or_rule&Mask)].RighPart[n].Name)
+
 //@ func (*LALR1).showTrans
-//@ trusted text of one transition (state, rule or symbol): a deterministic function of the transition; its wording is not verified
 //@ props C18
-//@ ensures result == spec_transText(lalr, tr)
+//@ use TTSHIFT, TTRED, TTP0, TTPS
+//@ requires wfTrans(lalr) && 0 <= tr && tr < len(lalr.trans)
+//@ ensures [C18] result == spec_transText(lalr, tr)
 //@ modifies nothing
+//@ loop 0: invariant [C18] s == spec_ttPre(lalr, tr, idx0) && r == lalr.G.ProductoinRules[int(trIt.sym_or_rule&Mask)] && trIt == lalr.trans[tr]
 
 //@ def laLine(l *LALR1, j int, k int) = printed_str(j, 0) == spec_transText(l, k) && printed_str(j, 1) == spec_names(l, l.LookAheadSet[k], len(l.LookAheadSet[k]))
 
 //@ func (*LALR1).ShowLookAheadSet
 //@ props C18 C14
 //@ use NAMES0, NAMESS
-//@ requires lalr != nil && lalr.G != nil
+//@ requires wfTrans(lalr) && (forall k int :: has(lalr.LookAheadSet, k) ==> 0 <= k && k < len(lalr.trans))
 //@ requires forall k, i int :: has(lalr.LookAheadSet, k) && 0 <= i && i < len(lalr.LookAheadSet[k]) ==> 0 <= lalr.LookAheadSet[k][i] && lalr.LookAheadSet[k][i] < len(lalr.G.Symbols) && lalr.G.Symbols[lalr.LookAheadSet[k][i]] != nil
 //@ ensures [C18] forall k int :: has(lalr.LookAheadSet, k) ==> (exists j int :: old(tlen) <= j && j < tlen && laLine(lalr, j, k))
 //@ modifies tlen
